@@ -216,6 +216,51 @@ def run_c02(ctx):
                      'interior section boundary coincides with a packet boundary (DESIGN.md 7)', 'explicit packet size 188 for the no-read-ahead clause'])
 
 
+def fault_variants(sc, kinds=('dup', 'drop'), every=1):
+    """every single-packet duplication / deletion position of a clean stream scenario"""
+    out = []
+    idx = [i for i, p in enumerate(sc['pkts']) if p.get('k', '') == '']
+    for n, i in enumerate(idx):
+        if n % every:
+            continue
+        for f in kinds:
+            v = dict(sc)
+            pk = [dict(p) for p in sc['pkts']]
+            if f == 'dup':
+                d = dict(pk[i])
+                d['f'] = 'dup'
+                pk.insert(i + 1, d)
+            else:
+                pk[i]['f'] = 'drop'
+            v['pkts'] = pk
+            v['sid'] = '%s-%s%d' % (sc['sid'], f, i)
+            out.append(v)
+    return out
+
+
+def run_c06(ctx):
+    build_harness(ctx)
+    quick = ctx.tier == 'quick'
+    model_check(ctx, 'MC_Demux', 'Demux_c06.cfg')
+    # (a) TLC: behaviours of the generator x channel x demuxer model with one dup/drop anywhere
+    tl = demux_scenarios(ctx, ['Demux_gen_c06_quick.cfg' if quick else 'Demux_gen_c06_deep.cfg'], 'fg', sample=6000 if quick else None)
+    tl = [s for s in tl if any('f' in p for p in s['pkts'])]
+    # (b) every single duplication and deletion position of clean streams (TLC-generated small ones and seeded random ones)
+    clean = demux_scenarios(ctx, ['Demux_gen_psi_quick.cfg', 'Demux_gen_pes_quick.cfg'], 'cg', sample=300 if quick else 6000)
+    rnd = harness_gen(ctx, 'demux', 60 if quick else 1500, ctx.seed, 3)
+    ex = []
+    for s in clean + rnd:
+        ex += fault_variants(s)
+    # (c) seeded multi-fault patterns (bursts < 16, duplicates of first/middle/last packets)
+    multi = harness_gen(ctx, 'pair', 300 if quick else 10000, ctx.seed, 3)
+    return pipeline(
+        ctx, 'Mon_C06', 'pair', tl + ex + multi,
+        rule='scenario = (clean stream, channel faults); TLC: transitions of Demux.tla with Faults={dup,drop}; exhaustive per stream: every single '
+             'duplication and deletion position; random: multi-fault patterns; distinct by hash of units+packets+fault marks',
+        assumptions=['errors returned on a faulted stream are not violations; a duplicate on a PSI PID may cause a second delivery of the same section',
+                     'loss domain: < 16 consecutive losses per PID and a later payload packet of that PID (scenarios outside are skipped by the harness)'])
+
+
 # ------------------------------------------------------------------ C18: I/O failures surfaced
 
 def run_c18(ctx):
@@ -238,4 +283,5 @@ PROPS = {
     'C17': lambda ctx: run_mux_family(ctx, 'C17'),
     'C18': run_c18,
     'C02': run_c02,
+    'C06': run_c06,
 }
